@@ -216,7 +216,19 @@ def specCell : FSpec → Val
   | .name s => .str s
   | .idx i => .num .int (.fin (i : Rat))
 
-/-- agg <key> <value|KN> <fn> <field> <bs|-> <table>  (simple aggregate with a key) -/
+/-- `aggregate(table, None, f, value)`: the single group of all rows -/
+def keylessValues (vidx : Option (List Nat)) (rows : List Row) : List Val :=
+  match vidx with
+  | none => rows.map (fun r => .seq false r)
+  | some [i] => rows.map (fun r => padGet .none r i)
+  | some idx => rows.map (fun r => .seq false (idx.map (padGet .none r)))
+
+def keylessAggregate (field : Val) (vidx : Option (List Nat)) (f : AggFn) (rows : List Row) : Out :=
+  match f.apply (keylessValues vidx rows) with
+  | .ok a => .ok [[field], [a]]
+  | .error e => .fail [[field]] e
+
+/-- agg <key|KN> <value|KN> <fn> <field> <bs|-> <table>  (simple aggregate, with or without a key) -/
 def opAgg : P String := do
   let key ← pKey
   let value ← pKey
@@ -233,6 +245,12 @@ def opAgg : P String := do
       match (match value with | none => Except.ok none | some v => (asindices hdr v).map some) with
       | .error e => pure (showOut (.fail [outhdr] e))
       | .ok vidx => pure (showOut (simpleAggregate (k.map specCell) field kidx vidx fn bs rows))
+  | hdr :: rows, none =>
+    -- no key: one group made of all the rows (petl 88398f1: whole rows when no value field is given; `values()` pads
+    -- short rows with None)
+    match (match value with | none => Except.ok none | some v => (asindices hdr v).map some) with
+    | .error e => pure (showOut (.fail [[field]] e))
+    | .ok vidx => pure (showOut (keylessAggregate field vidx fn rows))
   | _, _ => pure "ERR unsupported"
 
 /-- `groupcountdistinctvalues(table, key, value)` as implemented (petl d4bbfd2): cut to the key fields followed by the value
